@@ -1,3 +1,52 @@
+EXPECTED_FACTS = {
+    "c06_syncmeta_ifs": [
+        "slices.Contains(inputIds, outSp.RunId) && slices.Contains(inputIds, locSp.RunId)",
+        "ri.channel.IsValidOffset(Offset{RunId: locSp.RunId, Offset: outSp.Offset})",
+        "!isFullSync",
+        "slices.Contains(inputIds, outSp.RunId)",
+        "!isFullSync",
+        "slices.Contains(inputIds, locSp.RunId) && outSp.IsInitial()",
+        "locRdbLeft != -1 && locRdbSize != -1",
+        "!isFullSync",
+        "isFullSync",
+        "sOffset.RunId != id1",
+        "isFullSync || clearLocal",
+        "isFullSync",
+        "outSp.Offset <= 0"
+    ],
+    "c06_psync_args": [
+        "locSp.ToOffset()",
+        "outSp.ToOffset()",
+        "outSp.ToOffset()",
+        "locSp.ToOffset()",
+        "synSp.ToOffset()",
+        "synSp.ToOffset()"
+    ],
+    "c06_channel_calls": [
+        "syncMeta: ri.channel.StartPoint(inputIds)",
+        "syncMeta: ri.channel.IsValidOffset(Offset{RunId: locSp.RunId, Offset: outSp.Offset})",
+        "syncMeta: ri.channel.GetRdb(locSp.RunId)",
+        "syncMeta: ri.channel.GetOffsetRange(locSp.RunId)",
+        "syncMeta: ri.channel.DelRunId(ri.channel.RunId())",
+        "syncMeta: ri.channel.RunId()",
+        "syncMeta: ri.channel.SetRunId(sOffset.RunId)",
+        "syncMeta: ri.output.SetRunId(ctx, sOffset.RunId)",
+        "syncData: ri.channel.NewRdbWriter(redisCli.Client().BufioReader(), offset, rdbSize)",
+        "syncData: ri.channel.NewAofWritter(redisCli.Client().BufioReader(), offset)",
+        "syncData: ri.channel.NewAofWritter(redisCli.Client().BufioReader(), offset)",
+        "readChannel: ri.channel.NewReader(readerOffset.ToOffset())"
+    ],
+    "c06_sendpsync_offset": [
+        "if offset >= 0",
+        "offset += 1",
+        "err := sr.cli.SendAndFlush(\"psync\", runid, strconv.FormatInt(offset, 10))",
+        "sr.cli.SendAndFlush(\"psync\", runid, strconv.FormatInt(offset, 10))",
+        "return runid, offset - 1, nil, nil",
+        "runid, offset := xx[1], v",
+        "return runid, offset, sr.waitRdbDump(), nil"
+    ]
+}
+
 PROP = {
     "lean_modules": ["GunYu.Props.C06"],
     "audit_namespaces": ["GunYu.Props.C06"],
@@ -11,7 +60,7 @@ PROP = {
         "GunYu.Props.C06.delivers_something",
         "GunYu.Props.C06.storedCompat_needed",
     ],
-    "expected_facts": {},
+    "expected_facts": EXPECTED_FACTS,
     "harness": [{"name": "C06", "pkg": "./syncer/", "test": "TestVerifC06",
                  "timeout_quick": "10m", "timeout_thorough": "40m"}],
     "driver": "drv_C06",
@@ -50,7 +99,9 @@ PROP = {
         "the cache, so it does not produce the state from consistent bookkeeping (stale/re-keyed checkpoints are C17's subject)",
         "single cache directory per input (the disk store can hold directories of several ids; only the one matching the source ids "
         "first is modelled); ids compare case-sensitively (Redis uses strcasecmp on hex ids)",
-        "syncMeta/SendPSync/channel query API are hand-written models tied by correspondence (not regenerated)",
+        "syncMeta/SendPSync/channel query API are hand-written models tied by correspondence (not regenerated); the skeleton they "
+        "transcribe (syncMeta's if-conditions and pSync arguments, its channel/output calls, SendPSync's offset statements) is "
+        "re-extracted each run and compared with the expectation in checks/p/C06.py",
         "a run that ends before anything is delivered (store.NewRdbReader losing the race against the snapshot writer's rename, "
         "seen ~1/500 disk full syncs) is repeated from scratch by the harness (stat aborted_attempts_repeated); a deterministic abort "
         "survives the repeats and is reported as run-aborted",
